@@ -517,6 +517,15 @@ pub fn analyse(log: &[Rec], fams: &[Fam], meta: &Meta) -> Analysis {
                                     cx.fail(Fam::Abort, i, "abort-lost-delivered-data", format!("ep{e} s{sid}: the peer aborted; {b} bytes had been delivered to this endpoint before the Reset but the reader got end-of-stream after {got}"));
                                 }
                             }
+                            // whatever ended the stream: the frames that had reached this endpoint (handed to its connection task by
+                            // the transport) while the application still held the stream are read before end-of-stream is reported.
+                            // (single-threaded engine only: a frame is dispatched in the same task step in which it is delivered)
+                            if meta.sim && !st.s[e].dropped && st.s[e].got < st.s[e].dlv_bytes && !meta.stream_is_bridge {
+                                let (got, dlv) = (st.s[e].got, st.s[e].dlv_bytes);
+                                cnt.add("eof_with_delivered_data_missing", 1);
+                                cx.fail(Fam::End, i, "delivered-data-lost-before-eof", format!("ep{e} s{sid}: {dlv} payload bytes of this stream had been delivered to the endpoint, the reader got end-of-stream after {got}"));
+                                cx.fail(Fam::Eos, i, "delivered-data-lost-before-eof", format!("ep{e} s{sid}: {dlv} payload bytes of this stream had been delivered to the endpoint, the reader got end-of-stream after {got}"));
+                            }
                             let w = &st.s[p];
                             let peer_closed = w.finished_total.is_some() || w.aborted_total.is_some() || w.shut_called || w.dropped;
                             // the reader itself having been reset by... no: only the peer or the connection may end the stream
